@@ -18,6 +18,16 @@ def fmt_cases():
         for args in argsets:
             rules = [rule(cplx("go"), PRINT(atom(f), *args))]
             out.append((single_query_case(rules, [atom("go")], 2), "print-format"))
+    # beyond the small shapes: 8-20 markers and arguments, long and non-ASCII format strings, print_list of 9-30 elements
+    for nm, na in ((9, 9), (12, 3), (3, 12), (17, 17), (20, 21), (8, 0)):
+        f = "<" + "|".join("%s" for _ in range(nm)) + "> \u00e9\u65e5 " + "x" * 40
+        args = [i(k) if k % 3 else atom("w%d" % k) for k in range(na)]
+        out.append((single_query_case([rule(cplx("go"), PRINT(atom(f), *args))], [atom("go")], 2), "print-format"))
+    for n in (9, 17, 30):
+        big = lst([i(k) if k % 4 else lst([atom("e%d" % k)]) for k in range(n)])
+        out.append((single_query_case([rule(cplx("go", X), AND(U(X, big), bip("print_list", X, lst([i(1)], X))))], [atom("go"), var(0, "$Q")], 2), "print-list"))
+    many = [fact("num", i(k)) for k in range(1, 26)] + [rule(cplx("go", X), AND(C("num", X), PRINT(atom("%s;"), X), bip("greater_than", X, i(22))))]
+    out.append((single_query_case(many, [atom("go"), var(0, "$Q")], 5), "print-many"))
     # bound values are shown, through chains
     rules = [rule(cplx("go", X), AND(U(Y, X), U(Z, Y), PRINT(atom("<%s|%s>"), Z, X), NL, bip("print_list", lst([X, i(2)], T), Y), U(T, lst([i(5)]))))]
     out.append((single_query_case(rules, [atom("go"), i(4)], 2), "print-bound"))
@@ -57,7 +67,8 @@ def cases(tier, rng):
     out += histgen.random_cases(rng, n, dict(), must="(bip s112.114.105.110.116", solve_mix=False)
     return out
 
-RULE = ("(a) print with 12 format strings (no / one / several / adjacent / trailing %s markers, a lone %, %S) x 5 argument lists "
+RULE = ("(0) print with 8-20 markers and 0-21 arguments in a long non-ASCII format string, print_list of 9-30 elements, 25 candidates printed before three answers; "
+        "(a) print with 12 format strings (no / one / several / adjacent / trailing %s markers, a lone %, %S) x 5 argument lists "
         "(none, fewer, equal, more arguments than markers; lists and complex terms), and print / nl / print_list of values bound "
         "through variable chains; print_list with unbound / bound variables as arguments and elements, tail variables bound to lists, "
         "several arguments, non-list arguments; time(G) for 6 goals G in 6 positions (first answer only, elapsed text normalised); (b) all bodies of 1-3 goals over a 10-goal alphabet that contain a print (quick: half), also "
